@@ -425,29 +425,78 @@ fn build_der(c: &Chain, i: usize, ov: &Overrides) -> Result<Vec<u8>, Fail> {
     if let Some(aki) = ov.aki {
         tbs.set_authority_key_identifier(aki);
     }
-    match &spec.v4 {
-        Res::Missing => {}
-        Res::Inherit => tbs.set_v4_resources_inherit(),
-        r => tbs.build_v4_resource_blocks(|b| push_ip(r, Fam::V4).into_iter().for_each(|x| b.push(x))),
-    }
-    match &spec.v6 {
-        Res::Missing => {}
-        Res::Inherit => tbs.set_v6_resources_inherit(),
-        r => tbs.build_v6_resource_blocks(|b| push_ip(r, Fam::V6).into_iter().for_each(|x| b.push(x))),
-    }
-    match &spec.asn {
-        Res::Missing => {}
-        Res::Inherit => tbs.set_as_resources_inherit(),
-        Res::Blocks(v) => tbs.build_as_resource_blocks(|b| {
-            for &(lo, hi) in v {
+    // The resources reach the certificate through one of the public routes (chosen by the
+    // serial number, so it is part of the case): the closure builders, the *_from_iter
+    // setters, ready-made IpResources / AsResources values, or resource builders obtained
+    // through Default. All of them must put the same claim on the wire.
+    use rpki::repository::resources::{AsBlocks, AsResources, AsResourcesBuilder, IpBlocks, IpResources, IpResourcesBuilder};
+    let route = spec.serial % 4;
+    let as_blocks = |v: &Vec<(U128, U128)>| -> Vec<AsBlock> {
+        v.iter()
+            .map(|&(lo, hi)| {
                 let (lo, hi) = (Asn::from_u32(lo.0 as u32), Asn::from_u32(hi.0 as u32));
-                if lo == hi {
-                    b.push(AsBlock::Id(lo))
-                } else {
-                    b.push((lo, hi))
-                }
+                if lo == hi { AsBlock::Id(lo) } else { AsBlock::from((lo, hi)) }
+            })
+            .collect()
+    };
+    for f in [Fam::V4, Fam::V6] {
+        let r = spec.res(f);
+        let blocks = push_ip(r, f);
+        let value: Option<IpResources> = match (r, route) {
+            (Res::Missing, 0) => None,
+            (Res::Missing, 1) => Some(IpResourcesBuilder::default().finalize()),
+            (Res::Missing, 2) => Some(IpResources::missing()),
+            (Res::Missing, _) => Some(IpResourcesBuilder::new().finalize()),
+            (Res::Inherit, 0) | (Res::Inherit, 1) => {
+                if f == Fam::V4 { tbs.set_v4_resources_inherit() } else { tbs.set_v6_resources_inherit() }
+                None
             }
-        }),
+            (Res::Inherit, 2) => Some(IpResources::inherit()),
+            (Res::Inherit, _) => {
+                let mut b = IpResourcesBuilder::default();
+                b.inherit();
+                Some(b.finalize())
+            }
+            (Res::Blocks(_), 0) => {
+                let op = |b: &mut rpki::repository::resources::IpBlocksBuilder| blocks.iter().for_each(|x| b.push(*x));
+                if f == Fam::V4 { tbs.build_v4_resource_blocks(op) } else { tbs.build_v6_resource_blocks(op) }
+                None
+            }
+            (Res::Blocks(_), 1) => {
+                if f == Fam::V4 { tbs.v4_resources_from_iter(blocks.iter().copied()) } else { tbs.v6_resources_from_iter(blocks.iter().copied()) }
+                None
+            }
+            (Res::Blocks(_), 2) => Some(IpResources::blocks(blocks.iter().copied().collect::<IpBlocks>())),
+            (Res::Blocks(_), _) => {
+                let mut b = IpResourcesBuilder::default();
+                b.blocks(|b| blocks.iter().for_each(|x| b.push(*x)));
+                Some(b.finalize())
+            }
+        };
+        if let Some(v) = value {
+            if f == Fam::V4 { tbs.set_v4_resources(v) } else { tbs.set_v6_resources(v) }
+        }
+    }
+    match (&spec.asn, route) {
+        (Res::Missing, 0) => {}
+        (Res::Missing, 1) => tbs.set_as_resources(AsResourcesBuilder::default().finalize()),
+        (Res::Missing, 2) => tbs.set_as_resources(AsResources::missing()),
+        (Res::Missing, _) => tbs.set_as_resources(AsResourcesBuilder::new().finalize()),
+        (Res::Inherit, 0) | (Res::Inherit, 1) => tbs.set_as_resources_inherit(),
+        (Res::Inherit, 2) => tbs.set_as_resources(AsResources::inherit()),
+        (Res::Inherit, _) => {
+            let mut b = AsResourcesBuilder::default();
+            b.inherit();
+            tbs.set_as_resources(b.finalize())
+        }
+        (Res::Blocks(v), 0) => tbs.build_as_resource_blocks(|b| as_blocks(v).into_iter().for_each(|x| b.push(x))),
+        (Res::Blocks(v), 1) => tbs.as_resources_from_iter(as_blocks(v)),
+        (Res::Blocks(v), 2) => tbs.set_as_resources(AsResources::blocks(as_blocks(v).into_iter().collect::<AsBlocks>())),
+        (Res::Blocks(v), _) => {
+            let mut b = AsResourcesBuilder::default();
+            b.blocks(|b| as_blocks(v).into_iter().for_each(|x| b.push(x)));
+            tbs.set_as_resources(b.finalize())
+        }
     }
     let sign_with = ov.signer_key.unwrap_or(issuer_key);
     let cert = tbs
@@ -470,6 +519,7 @@ fn validate(der: &[u8], kind: Kind, issuer: Option<&ResourceCert>, strict: bool,
         Err(e) => return Ok(Outcome::Rejected(format!("decode: {}", e))),
     };
     let need_issuer = || Fail::new("harness: issuer missing");
+    let alt_cert = cert.clone();
     let res = no_panic("validate", || -> Result<Result<Option<ResourceCert>, String>, Fail> {
         Ok(match kind {
             Kind::Ta => cert
@@ -488,6 +538,64 @@ fn validate(der: &[u8], kind: Kind, issuer: Option<&ResourceCert>, strict: bool,
                 .map_err(|e| e.to_string()),
         })
     })??;
+    // The same question through the other public routes: the documented two-step form
+    // ("validate = inspect + verify": inspect_*(strict) followed by verify_*_at) and, for trust
+    // anchors, the borrowing verify_ta_ref_at. They must give the same verdict and resources.
+    let alt = no_panic("inspect + verify", || -> Result<Result<Option<ResourceCert>, String>, Fail> {
+        let c = alt_cert.clone();
+        let s = |e: &dyn std::fmt::Display| e.to_string();
+        Ok(match kind {
+            Kind::Ta => match c.inspect_ta(strict) {
+                Err(e) => Err(s(&e)),
+                Ok(()) => {
+                    let by_ref = c.verify_ta_ref_at(strict, now).map_err(|e| s(&e));
+                    let owned = c.verify_ta_at(TalInfo::from_name("c01".into()).into_arc(), strict, now).map(Some).map_err(|e| s(&e));
+                    if by_ref.is_ok() != owned.is_ok() {
+                        return Err(Fail::sig(
+                            "c01:entry-points-disagree",
+                            format!("trust anchor: verify_ta_ref_at says {:?}, verify_ta_at says {:?}", by_ref, owned.as_ref().map(|_| ())),
+                        ));
+                    }
+                    owned
+                }
+            },
+            Kind::Ca => match c.inspect_ca(strict) {
+                Err(e) => Err(s(&e)),
+                Ok(()) => c.verify_ca_at(issuer.ok_or_else(need_issuer)?, strict, now).map(Some).map_err(|e| s(&e)),
+            },
+            Kind::Ee => match c.inspect_ee(strict) {
+                Err(e) => Err(s(&e)),
+                Ok(()) => c.verify_ee_at(issuer.ok_or_else(need_issuer)?, strict, now).map(Some).map_err(|e| s(&e)),
+            },
+            Kind::DetachedEe => match c.inspect_detached_ee(strict) {
+                Err(e) => Err(s(&e)),
+                Ok(()) => c.verify_ee_at(issuer.ok_or_else(need_issuer)?, strict, now).map(Some).map_err(|e| s(&e)),
+            },
+            Kind::Router => match c.inspect_router(strict) {
+                Err(e) => Err(s(&e)),
+                Ok(()) => c.verify_router_at(issuer.ok_or_else(need_issuer)?, strict, now).map(|()| None).map_err(|e| s(&e)),
+            },
+        })
+    })??;
+    match (&res, &alt) {
+        (Ok(a), Ok(b)) => {
+            if let (Some(a), Some(b)) = (a, b) {
+                for f in FAMS {
+                    let (x, y) = (lib_lists(a, f)?, lib_lists(b, f)?);
+                    ensure_sig!(x == y, "c01:entry-points-disagree",
+                        "{:?}: validate_*_at yields {} resources {:x?}, inspect + verify_*_at yields {:x?}", kind, f.name(), x, y);
+                }
+            }
+        }
+        (Err(_), Err(_)) => {}
+        (a, b) => {
+            return Err(Fail::sig(
+                "c01:entry-points-disagree",
+                format!("{:?}: validate_*_at says {:?} but inspect_* followed by verify_*_at says {:?}",
+                    kind, a.as_ref().map(|_| "accepted"), b.as_ref().map(|_| "accepted")),
+            ))
+        }
+    }
     Ok(match res {
         Ok(rc) => Outcome::Accepted(rc.map(Box::new)),
         Err(e) => Outcome::Rejected(e),
